@@ -30,3 +30,32 @@ func TestDebug_FaultPlan(t *testing.T) {
 		fmt.Println(e.String())
 	}
 }
+
+// TestDebug_CachePlan runs the cache plan stored in VERIF_DEBUG_CPLAN (single caller with VERIF_DEBUG_C07=1, as the
+// end-to-end C07 unit does) and prints reads, writes and the server's event log (development aid).
+func TestDebug_CachePlan(t *testing.T) {
+	p := os.Getenv("VERIF_DEBUG_CPLAN")
+	if p == "" {
+		t.Skip()
+	}
+	b, _ := os.ReadFile(p)
+	var plan cPlan
+	if err := json.Unmarshal(b, &plan); err != nil {
+		t.Fatal(err)
+	}
+	run := cacheRun(t, plan)
+	fmt.Printf("res=%s pending=%d epoch=%d\n", run.Res, run.Pending, run.EpochMs)
+	for _, r := range run.Reads {
+		fmt.Printf("read caller %d op %d pos %d key %s [%d..%d]us err=%v nil=%v val=%s hit=%v pxat=+%d ttl=%d\n", r.Caller, r.Op, r.Pos, r.Key, r.StartUs, r.EndUs, r.Err, r.Nil, r.Val, r.Hit, r.PXAT-run.EpochMs, r.TTLMs)
+	}
+	for _, w := range run.Writes {
+		fmt.Printf("write %+v\n", w)
+	}
+	for _, e := range run.Events {
+		s := e.String()
+		if len(s) > 260 {
+			s = s[:260]
+		}
+		fmt.Println(s)
+	}
+}
